@@ -455,6 +455,18 @@ def siblings(ctx):
     fe = ctx.fa(f"{BF}.file_exists")
     r = R.single_return_value(fe)
     ctx.ob("C01-D6/DEP", r is not None and unparse(r.value) == "os.path.isfile(self.file_path)", fe.site(), "file_exists == the blob's path is a file", func=fe.fi.qualname)
+    # a writer's clean-up un-registers ITSELF, not whoever holds its key now: the same peer may have been given a new writer (after this one was closed and
+    # before its callbacks ran); deleting that registration hides the new writer from the duplicate guard and from the winner's close-the-others loop
+    rw = ctx.fa(f"{ABS}.get_blob_writer.<locals>.remove_writer")
+    dels = rw.stmts(ast.Delete) + [R.stmt_of(c) for c in rw.calls(name="pop") if unparse(c.func.value) == "self.writers"]
+    ctx.floor("C01-D6/OWN", "remove_writer drops a registration", len(dels), 1, site=rw.site(), func=rw.fi.qualname)
+    for d in dels:
+        own = False
+        for g in ("self.writers.get((peer_address, peer_port)) is writer", "self.writers[(peer_address, peer_port)] is writer"):
+            own = own or rw.guarded(d, g)[0]
+        ctx.ob("C01-D6/OWN", own, rw.site(d), "a finished writer removes the registration under its (address, port) key only if that registration is this very writer",
+               func=rw.fi.qualname, key="C01-D6/OWN|remove_writer|identity",
+               detail="" if own else "the key is deleted whoever is registered under it: a newer writer of the same peer is un-registered and is not shut down when the blob verifies")
     # adoption of a file found on disk (restart): verified only together with a length, and the length is the file's size, stored directly
     bi = ctx.fa(f"{BF}.__init__")
     vs = [c for c in bi.calls(dotted_name="self.verified.set")]
